@@ -143,26 +143,26 @@ Fixpoint set_byte (l : bytes) (p : nat) (v : Z) : bytes :=
   | _ :: r, O => v :: r
   | c :: r, S p' => c :: set_byte r p' v
   end.
-Definition variant_out (chk : bool) (t wall : Z) (b : bytes) : list tok :=
-  match load chk t wall b with
+Definition variant_out (t wall : Z) (b : bytes) : list tok :=
+  match load t wall b with
   | (st, ds, r) =>
       let big := if 64 * len b + 1048576 <? r_resv r then 4 else 0 in
       [TI (st_code st + big); TI (hash_toks (flag_dbs t 0 ds))]
   end.
-Fixpoint prefixes_out (chk : bool) (t wall : Z) (b : bytes) (n : nat) (acc : list tok) : list tok :=
+Fixpoint prefixes_out (t wall : Z) (b : bytes) (n : nat) (acc : list tok) : list tok :=
   match n with
   | O => acc
-  | S k => prefixes_out chk t wall b k (variant_out chk t wall (firstn k b) ++ acc)
+  | S k => prefixes_out t wall b k (variant_out t wall (firstn k b) ++ acc)
   end.
 Definition byte_variants (c : Z) (abs xors : list Z) : list Z :=
   filter (fun v => negb (v =? c)) (abs ++ map (fun x => Z.lxor c x) xors).
-Fixpoint corrupt_out (chk : bool) (t wall : Z) (b : bytes) (abs xors : list Z) (pre : bytes) (post : bytes)
+Fixpoint corrupt_out (t wall : Z) (b : bytes) (abs xors : list Z) (pre : bytes) (post : bytes)
   : list tok :=
   match post with
   | [] => []
   | c :: r =>
-      flat_map (fun v => variant_out chk t wall (rev_append pre (v :: r))) (byte_variants c abs xors)
-      ++ corrupt_out chk t wall b abs xors (c :: pre) r
+      flat_map (fun v => variant_out t wall (rev_append pre (v :: r))) (byte_variants c abs xors)
+      ++ corrupt_out t wall b abs xors (c :: pre) r
   end.
 
 (** ---- one operation ---- *)
@@ -243,7 +243,7 @@ Definition rdb_op (s : mst) (op : list tok) : list tok * mst :=
             else
               let tie :=
                 if rt_guard t wall wall ds && forallb (fun d => forallb (fun ke => negb (expired t (snd ke))) (d_data d)) ds then
-                  match load (0 <? chk) t wall b with
+                  match load t wall b with
                   | (LOk, ds', _) =>
                       let (ver, ctime) := aux_of b in
                       if beq (save ver ctime t wall (map rev_db ds')) b then 1 else 0
@@ -274,7 +274,7 @@ Definition rdb_op (s : mst) (op : list tok) : list tok * mst :=
         | [TI wall; TI chk] =>
             match m_disk s with
             | None => ([TI 0], {| m_ds := empty_dbs; m_disk := None |})
-            | Some b => match load (0 <? chk) t wall b with
+            | Some b => match load t wall b with
                         | (st, ds', _) => ([TI (st_code st)], {| m_ds := ds'; m_disk := m_disk s |})
                         end
             end
@@ -288,8 +288,7 @@ Definition rdb_op (s : mst) (op : list tok) : list tok * mst :=
             | Some b =>
                 let abs := firstn (Z.to_nat k) (tis r) in
                 let xors := tis (tl (skipn (Z.to_nat k) r)) in
-                let c := 0 <? chk in
-                let outs := prefixes_out c t wall b (length b) [] ++ corrupt_out c t wall b abs xors [] b in
+                let outs := prefixes_out t wall b (length b) [] ++ corrupt_out t wall b abs xors [] b in
                 (TI (len outs / 2) :: outs, s)
             end
         | _ => ([TB (bs "BADOP")], s)
@@ -312,8 +311,8 @@ Definition rdb_op (s : mst) (op : list tok) : list tok * mst :=
         | [TI wall; TI chk] =>
             match m_disk s with
             | None => ([TI 0; TI 0], s)
-            | Some b => match load (0 <? chk) t wall b with
-                        | (_, ds', _) => (variant_out (0 <? chk) t wall b, {| m_ds := ds'; m_disk := m_disk s |})
+            | Some b => match load t wall b with
+                        | (_, ds', _) => (variant_out t wall b, {| m_ds := ds'; m_disk := m_disk s |})
                         end
             end
         | _ => ([TB (bs "BADOP")], s)
